@@ -144,6 +144,19 @@ theorem complete_reply (k : ClientKind) (fl : Flusher) (hooks : Bool) (hfl : ¬ 
     simp only [Resp.bytes]
     rw [(C02.roundtrip_rtu resp hwf []).2.2]
 
+/-- **fragmentation independence**: the outcome of the call is the same for any two ways in which the transport
+cuts the reply (and places timeouts between the pieces) -/
+theorem fragmentation_independent (k : ClientKind) (fl : Flusher) (hooks₁ hooks₂ : Bool)
+    (hfl : ¬ (k = .serial ∧ fl = .failing)) (reqBytes : Bytes) (tid : UInt16) (resp : Resp) (hwf : Resp.WF9 resp)
+    (hmax : (resp.bytes k.framing tid).length ≤ k.maxLen)
+    (s₁ s₂ : List Ev) (h₁ : Frag (resp.bytes k.framing tid) s₁) (h₂ : Frag (resp.bytes k.framing tid) s₂) :
+    (doExchange k fl hooks₁ reqBytes (resp.bytes k.framing tid).length false s₁).1 =
+    (doExchange k fl hooks₂ reqBytes (resp.bytes k.framing tid).length false s₂).1 := by
+  have a := complete_reply k fl hooks₁ hfl reqBytes tid resp hwf hmax s₁ h₁
+  have b := complete_reply k fl hooks₂ hfl reqBytes tid resp hwf hmax s₂ h₂
+  unfold Returns at a b
+  rw [a, b]
+
 /-- **a serial port that reports its own read timeout as `(0, io.EOF)`**: such reads are empty timed-out reads. The
 serial client returns the complete reply for every fragmentation that also contains them (before, inside and after the
 reply), with any flusher that does not fail -/
